@@ -400,6 +400,23 @@ def _methods():
         lambda i=ar.t(torch.tensor([0, s[-2] - 1]), "row_index", expand="none"), j=ar.t(torch.tensor([s[-1] - 1, 0]), "col_index", expand="none"): op[..., i, j]))
     M["getitem_tensor_slice"] = (False, lambda op, ar, rng, s: (
         lambda i=ar.t(torch.tensor([0, s[-2] - 1]), "row_index", expand="none"): op[..., i, :].to_dense()))
+    # index tensors (batch, row, column) that already have the broadcast shape: __getitem__ hands views of them down to _get_indices
+    def _bidx(op, ar, rng, s, mk, rows_only=False, shape2d=False):
+        nb = 3
+        vals = lambda hi: ([hi - 1, 0, hi - 1, 1 % hi] if shape2d else [hi - 1, 0, 1 % hi])
+        shp = (2, 2) if shape2d else (3,)
+        ix = [ar.t(torch.tensor(vals(nb)).reshape(shp), "batch_index", expand="none")]
+        for k, d in enumerate(s[:-2]):
+            ix.append(ar.t(torch.tensor(vals(d)).reshape(shp), "batch_index%d" % (k + 1), expand="none"))
+        ix.append(ar.t(torch.tensor(vals(s[-2])).reshape(shp), "row_index", expand="none"))
+        if rows_only:
+            return lambda: (lambda r: r.to_dense() if hasattr(r, "to_dense") else r)(mk(op)[(*ix, slice(None))])
+        ix.append(ar.t(torch.tensor(list(reversed(vals(s[-1])))).reshape(shp), "col_index", expand="none"))
+        return lambda: mk(op)[tuple(ix)]
+    M["getitem_batch_tensor_repeat"] = (False, lambda op, ar, rng, s: _bidx(op, ar, rng, s, lambda o: o.repeat(3, *([1] * len(s)))))
+    M["getitem_batch_tensor_expand"] = (False, lambda op, ar, rng, s: _bidx(op, ar, rng, s, lambda o: o.expand(3, *s)))
+    M["getitem_batch_tensor_rows"] = (False, lambda op, ar, rng, s: _bidx(op, ar, rng, s, lambda o: o.repeat(3, *([1] * len(s))), rows_only=True))
+    M["getitem_batch_tensor_2d"] = (False, lambda op, ar, rng, s: _bidx(op, ar, rng, s, lambda o: o.repeat(3, *([1] * len(s))), shape2d=True))
     M["add_diagonal"] = (True, lambda op, ar, rng, s: (lambda d=bt(ar, rng, s, s[-1], None, "diag", lo=0.5, hi=1.5): op.add_diagonal(d).to_dense()))
     M["add_jitter"] = (True, lambda op, ar, rng, s: (lambda: op.add_jitter(0.5).to_dense()))
     M["add_tensor"] = (False, lambda op, ar, rng, s: (lambda t=bt(ar, rng, s, s[-2], s[-1], "other"): (op + t).to_dense()))
@@ -530,6 +547,132 @@ def operator_cases(classes=None, variants=None):
     return C
 
 
+# ------------------------------------------------------------------------------------------------
+# backward passes with explicit gradient tensors
+
+_PT = {}
+
+
+def user_passthrough_class():
+    """a minimal user-defined operator (the identity scaled by nothing) whose protocol methods hand their ARGUMENT back -- exactly
+    what the closure assumption of the static layer permits a closure / operator method to do"""
+    if "cls" not in _PT:
+        from linear_operator.operators import LinearOperator
+
+        class UserPassThrough(LinearOperator):
+            def __init__(self, ones):
+                super().__init__(ones)
+                self.ones = ones
+
+            def _matmul(self, rhs):
+                return rhs
+
+            def _t_matmul(self, rhs):
+                return rhs
+
+            def _size(self):
+                return torch.Size((*self.ones.shape, self.ones.shape[-1]))
+
+            def _transpose_nonbatch(self):
+                return self
+
+            def _solve(self, rhs, preconditioner=None, num_tridiag=0):
+                return rhs
+
+            def _diagonal(self):
+                return self.ones
+
+            def _bilinear_derivative(self, left_vecs, right_vecs):
+                return (None,)
+        _PT["cls"] = UserPassThrough
+    return _PT["cls"]
+
+
+def _grad_outputs():
+    """name -> (needs_psd, iterative, f(op, r, v) -> list of output tensors of (mostly) one autograd Function call); r: matrix rhs, v: vector"""
+    G = {}
+    dn = lambda x: x.to_dense() if hasattr(x, "to_dense") else x
+    G["matmul"] = (False, False, lambda op, r, v: [op @ r])
+    G["matmul_vec"] = (False, False, lambda op, r, v: [op @ v])
+    G["t_matmul"] = (False, False, lambda op, r, v: [op.mT @ r] if op.shape[-1] == op.shape[-2] else [op @ r])
+    G["to_dense"] = (False, False, lambda op, r, v: [op.to_dense()])
+    G["diagonal"] = (False, False, lambda op, r, v: [op.diagonal()] if op.shape[-1] == op.shape[-2] else [op.to_dense()])
+    for it in (False, True):
+        sfx = "_iterative" if it else ""
+        G["solve" + sfx] = (True, it, lambda op, r, v: [op.solve(r)])
+        G["solve_vec" + sfx] = (True, it, lambda op, r, v: [op.solve(v)])
+        G["solve_lhs" + sfx] = (True, it, lambda op, r, v: [op.solve(r, r.mT)])
+        G["solve_vec_lhs" + sfx] = (True, it, lambda op, r, v: [op.solve(v, r.mT)])
+        G["inv_quad" + sfx] = (True, it, lambda op, r, v: [op.inv_quad(r)])
+        G["inv_quad_vec" + sfx] = (True, it, lambda op, r, v: [op.inv_quad(v)])
+        G["inv_quad_logdet" + sfx] = (True, it, lambda op, r, v: list(op.inv_quad_logdet(r, logdet=True)))
+        G["inv_quad_logdet_vec" + sfx] = (True, it, lambda op, r, v: list(op.inv_quad_logdet(v, logdet=True)))
+        G["logdet" + sfx] = (True, it, lambda op, r, v: [op.logdet()])
+        G["sqrt_inv_matmul" + sfx] = (True, it, lambda op, r, v: [op.sqrt_inv_matmul(r)])
+        G["sqrt_inv_matmul_lhs" + sfx] = (True, it, lambda op, r, v: list(op.sqrt_inv_matmul(r, r.mT)))
+    G["root_lanczos"] = (True, True, lambda op, r, v: [op.root_decomposition(method="lanczos").root.to_dense()])
+    G["root_inv_lanczos"] = (True, True, lambda op, r, v: [op.root_inv_decomposition(method="lanczos").root.to_dense()])
+    # both outputs of ONE Lanczos RootDecomposition call: the inverse root, then the root served from the cache that call filled
+    G["root_and_inv_lanczos"] = (True, True, lambda op, r, v: (lambda ri: [op.root_decomposition().root.to_dense(), ri])(
+        op.root_inv_decomposition(method="lanczos").root.to_dense()))
+    G["diagonalization_lanczos"] = (True, True, lambda op, r, v: (lambda ev: [ev[0], dn(ev[1])])(op.diagonalization(method="lanczos")))
+    G["diagonalization_symeig"] = (True, False, lambda op, r, v: (lambda ev: [ev[0], dn(ev[1])])(op.diagonalization(method="symeig")))
+    G["pivoted_cholesky"] = (True, False, lambda op, r, v: [op.pivoted_cholesky(rank=2)])
+    G["cholesky"] = (True, False, lambda op, r, v: [op.cholesky().to_dense()])
+    G["svd"] = (True, False, lambda op, r, v: (lambda u: [dn(u[0]), u[1]])(op.svd()))
+    G["add_jitter_matmul"] = (True, False, lambda op, r, v: [op.add_jitter(0.5) @ r])
+    G["add_jitter_solve_vec_iterative"] = (True, True, lambda op, r, v: [op.add_jitter(0.5).solve(v)])
+    G["zero_mean_mvn_samples"] = (True, False, lambda op, r, v: [op.zero_mean_mvn_samples(2)])
+    return G
+
+
+GRAD_CLASSES = ["Dense", "AddedDiag", "Diag", "Toeplitz", "Root", "LowRankRoot", "Kron", "KronAddedDiag", "SumKron", "LowRankRootAddedDiag", "Sum",
+                "PsdSum", "ConstantMul", "BlockDiag", "BatchRepeat", "Mul", "Chol", "Interpolated", "Matmul", "Cat", "Masked", "Kernel",
+                "UserPassThrough"]
+
+
+def backward_grad_cases():
+    """backward passes with EXPLICIT gradient tensors: the grad_outputs a caller hands to torch.autograd.grad / .backward(gradient=...)
+    (and, inside a larger graph, gradient buffers shared with other branches) are caller-owned; every custom autograd Function of
+    linear_operator/functions/ is reached through the public API, ALL outputs of one Function call receive a gradient; forward and
+    backward run under the same settings (iterative variants: CG / Lanczos paths in both)"""
+    C = []
+    G = _grad_outputs()
+    for cls in GRAD_CLASSES:
+        psd_ok = cls in opbuild.PSD_CAPABLE or cls == "UserPassThrough"
+        for gname, (needs_psd, iterative, f) in G.items():
+            if needs_psd and not psd_ok:
+                continue
+            for via in ("grad", "shared"):
+                def b(ar, rng, cls=cls, f=f, needs_psd=needs_psd, via=via, iterative=iterative):
+                    if cls == "UserPassThrough":
+                        op = user_passthrough_class()(ar.t(torch.ones(4, dtype=torch.float64), "op.leaf1", expand="none", requires_grad=True))
+                    else:
+                        e = opbuild.gen(rng, cls, batch=[], m=4, psd=needs_psd)
+                        op = ar.op(e, "op", requires_grad=True)
+                    r = ar.t(R(rng, op.shape[-1], 2), "rhs", requires_grad=True)
+                    v = ar.t(R(rng, op.shape[-1]), "rhs_vector", expand="none", requires_grad=True)
+                    leaves = [w.view for w in ar.watches if isinstance(getattr(w, "view", None), torch.Tensor) and w.view.requires_grad]
+
+                    def body():
+                        if via == "shared":
+                            # a side branch created BEFORE the forward pass that receives the very gradient buffers of the outputs
+                            # (AddBackward hands the same tensor to both parents): W.grad must be the sum of the caller's weights
+                            W = torch.zeros((), dtype=torch.float64, requires_grad=True)
+                            V = W * 1.0
+                        outs = [o for o in f(op, r, v) if isinstance(o, torch.Tensor) and o.requires_grad]
+                        # the caller's gradient tensors, laid out by the arena (created after the forward pass: their shapes are the outputs')
+                        gs = [ar.t(R(rng, *o.shape) if o.dim() else R(rng, 1).reshape(()), "grad_output%d" % i, expand="last") for i, o in enumerate(outs)]
+                        if via == "grad":
+                            return torch.autograd.grad(outs, leaves, gs, allow_unused=True)
+                        ar.watches.append(SharedGradExpect(W, sum(float(g.to(torch.float64).sum()) for g in gs)))
+                        loss = sum((g * (o + V.to(o.dtype))).sum() for o, g in zip(outs, gs))
+                        return loss.backward()
+                    return (lambda: _iter(body)) if iterative else body
+                C.append(("backward_grad.%s.%s" % (cls, gname), via, b))
+    return C
+
+
 def history_cases():
     """sequences of operations on operators sharing the same caller tensors; intermediate result operators become
     pre-existing operators for the following steps"""
@@ -569,7 +712,7 @@ HISTORY_POOL = ["to_dense", "matmul", "t_matmul", "diagonal", "getitem_slice", "
                 "mul_const", "solve", "solve_iterative", "inv_quad_logdet", "inv_quad_logdet_iterative", "logdet", "cholesky",
                 "root_decomposition", "root_inv_decomposition", "diagonalization", "sqrt_inv_matmul", "zero_mean_mvn_samples",
                 "pivoted_cholesky", "cat_rows", "add_low_rank", "clone", "detach", "requires_grad_", "expand", "representation_roundtrip",
-                "svd", "transpose_dense", "sum_rows"]
+                "svd", "transpose_dense", "sum_rows", "getitem_batch_tensor_repeat", "getitem_batch_tensor_expand"]
 
 
 def random_history_cases(n):
@@ -606,6 +749,20 @@ def random_history_cases(n):
             return go
         C.append(("history.random.%s" % cls, "%d:%s" % (k, ">".join(seq)), b))
     return C
+
+
+class SharedGradExpect:
+    """duck-typed watch (name / effects()): the gradient that reached a side branch sharing the outputs' gradient buffers"""
+    def __init__(self, W, expected):
+        self.name, self.W, self.expected = "gradient buffer shared with another branch of the graph", W, expected
+        self.view = self.owner = None
+
+    def effects(self):
+        g = self.W.grad
+        if g is None:
+            return []
+        got = float(g)
+        return [] if abs(got - self.expected) <= 1e-8 * (1.0 + abs(self.expected)) else ["values:side-branch-gradient %r instead of %r" % (got, self.expected)]
 
 
 class HistoryHit(Exception):
